@@ -36,7 +36,8 @@ RULE = ('cases from one PRNG: (a) 78 % design cases: the star topologies of C08 
         'line) x power/gain mode x delta_power_range/slope/reference/padding/EOL/VOA margin+step/extended gain/ROADM '
         'targets (power, power spectral density or power per slot width)/per-degree targets/SI power, tx power, channel count, of which 12 % gain-mode lines built on purpose around '
         'the saturation decision (operator type_variety + operator gain behind an amplifier with operator out_voa 1-4 dB, '
-        'true output inside (p_max - prev_voa, p_max), below it, or just above p_max); (b) 12 % round2float / target_power unit cases '
+        'true output inside (p_max - prev_voa, p_max), below it, or just above p_max), and 6 % lines of auto-selected amplifiers asked for more '
+        'power than any permitted model gives, in a library whose two candidate models have p_max 0.1-0.3 dB apart (fallback selection); (b) 12 % round2float / target_power unit cases '
         'incl. values next to rounding ties and clamps; (c) 10 % malformed delta_power_range_db (2 entries) that must '
         'be rejected with ConfigurationError. non-trivial: at least two amplifiers were designed in one OMS / unit case '
         'off the clamp / every malformed case; distinct = distinct canonical JSON')
@@ -62,6 +63,8 @@ def gen(rng, tier, widen=False):
         return gen_unit(rng, widen)
     if r < 0.34:
         return gen_gain_saturation(rng)
+    if r < 0.40:
+        return gen_fallback_selection(rng)
     # RamanFiber placements that make designed_network raise (open finding raman-gain-before-estimate of C08) are kept
     # out of this generator
     c = G.gen_case(rng, tier, widen, raman_crash_rate=0.0, lumped=True, band_spacing=True)
@@ -111,6 +114,34 @@ def gen_gain_saturation(rng):
             'trx_src': None, 'roadms': {'R0': {'target_pch_out_db': target}, 'R1': {}}, 'per_degree': {}, 'span': span,
             'si': {'power_dbm': 0, 'tx_power_dbm': 0, 'use_si_channel_count_for_design': True}, 'edfa_mod': {},
             'has_raman': False}
+
+
+def gen_fallback_selection(rng):
+    """auto-selected amplifiers (no type_variety) asked for more power than any permitted model can give, in a library whose
+    two candidates for 10-17 dB of gain (std_low_gain, std_medium_gain) have p_max 0.1-0.3 dB apart, either one being the
+    weaker: the selection falls back to the models within 0.3 dB of the strongest and takes the quieter one - the design
+    power must then respect the p_max of THAT model"""
+    d = rng.choice([0.1, 0.2, 0.3, 0.25, 0.15])
+    weaker = rng.choice(['std_low_gain', 'std_low_gain', 'std_medium_gain'])
+    top = rng.choice([23, 23, 22, 24])
+    mod = {'std_low_gain': {'p_max': top}, 'std_medium_gain': {'p_max': top}}
+    mod[weaker]['p_max'] = round(top - d, 2)
+    fib = lambda uid, L: {"uid": uid, "type": "Fiber", "type_variety": "SSMF",       # noqa: E731
+                          "params": {"length": L, "length_units": "km", "loss_coef": 0.2, "con_in": 0.5, "con_out": 0.5}}
+    n = rng.choice([2, 3, 4])
+    line = [fib(f'f {i}', rng.choice([50.0, 55.0, 60.0, 65.0, 70.0, 75.0, 62.5])) for i in range(n)]
+    if rng.random() < 0.3:
+        line.insert(rng.randrange(1, n), {"uid": "f a", "type": "Edfa"})       # a user-placed amplifier without any setting
+    span = {'power_mode': True, 'delta_power_range_db': rng.choice([[0, 0, 0], [-2, 3, 0.5], [-1, 1, 0.5]]),
+            'power_slope': 0.3, 'span_loss_ref': 20.0, 'padding': 10, 'EOL': 0, 'con_in': 0, 'con_out': 0,
+            'max_length': 150, 'length_units': 'km', 'voa_margin': 1, 'voa_step': 0.5,
+            'target_extended_gain': rng.choice([2.5, 2.5, 5]), 'max_fiber_lineic_loss_for_raman': 0.25}
+    return {'kind': 'design', 'shape': 'fallback-selection', 'k': 1,
+            'chains': [{'src': 'R0', 'dst': 'R1', 'line': line},
+                       {'src': 'R1', 'dst': 'R0', 'line': [fib('f back', rng.choice([60.0, 70.0]))]}],
+            'trx_src': None, 'roadms': {'R0': {}, 'R1': {}}, 'per_degree': {}, 'span': span,
+            'si': {'power_dbm': rng.choice([6, 7, 8, 5.5]), 'tx_power_dbm': 0, 'use_si_channel_count_for_design': True},
+            'edfa_mod': mod, 'has_raman': False}
 
 
 def gen_unit(rng, widen=False):
@@ -411,6 +442,11 @@ def run_design(case, drv):
     res.nontrivial = st['oms_with_two_amps'] > 0
     res.stats.update(st)
     res.stats.update({'design': 1, 'power_mode': int(sp['power_mode']), 'gain_mode': int(not sp['power_mode'])})
+    if case.get('shape') == 'fallback-selection':
+        sel = [r for recs in post if recs for r in recs if r['kind'] == 'edfa']
+        pm = {k: v['p_max'] for k, v in case['edfa_mod'].items()}
+        res.stats.update({'fallback_selection_cases': 1,
+                          'fallback_selected_weaker_model': sum(1 for r in sel if pm.get(r['variety']) == min(pm.values()))})
     if case.get('shape') == 'gain-saturation':
         res.stats.update({'gain_saturation_cases': 1, f'gain_saturation_{case["where"]}': 1})
     return res
